@@ -22,13 +22,24 @@ var pairKinds = []string{
 func freshKey(r *vlib.Rand, m map[string]string, near string) string {
 	for i := 0; ; i++ {
 		var k string
-		switch r.Intn(5) {
+		switch r.Intn(7) {
 		case 0:
 			k = near + string(rune(r.Intn(3))) // near-miss: old key + NUL/SOH/STX
 		case 1:
 			k = near + "\u0301" // combining acute: canonically close, bytewise different
 		case 2:
 			k = ""
+		case 3:
+			// near-miss that a trimmed / unescaped / formatted / case-folded comparison would not see
+			k = [][2]string{{" ", ""}, {"", " "}, {"", "\n"}, {"", "%"}, {"%", ""}, {"\\", ""}, {"", "\\"}, {"\"", "\""}, {"", "\ufeff"}}[r.Intn(9)][0] + near
+			if r.Bool() {
+				k = near + []string{" ", "\n", "\t", "%", "%s", "\\", "\"", "&", ";", "\u200b"}[r.Intn(10)]
+			}
+		case 4:
+			k = strings.ToUpper(near)
+			if k == near {
+				k = strings.ToLower(near)
+			}
 		default:
 			k = genStr(r)
 		}
@@ -49,7 +60,7 @@ func pickKey(r *vlib.Rand, m map[string]string) string {
 func differentStr(r *vlib.Rand, old string) string {
 	for {
 		var s string
-		switch r.Intn(6) {
+		switch r.Intn(9) {
 		case 0:
 			s = ""
 		case 1:
@@ -58,6 +69,13 @@ func differentStr(r *vlib.Rand, old string) string {
 			s = strings.ToUpper(old)
 		case 3:
 			s = old + "\x00"
+		case 4:
+			s = []string{" ", "\n", "\t", "\ufeff", "%", "\\", "\""}[r.Intn(7)] + old
+		case 5:
+			s = old + []string{"\n", "\r\n", "\t", "%", "%s", "%!(NOVERB)", "\\", "\"", "&amp;", "\u0301"}[r.Intn(10)]
+		case 6:
+			// the text with one kind of escaping applied: differs bytewise from the original whenever it changes anything
+			s = strings.NewReplacer("%", "%%", "\\", "\\\\", "\"", "\\\"", "<", "&lt;", "&", "&amp;", " ", "%20", "\n", "\\n").Replace(old)
 		default:
 			s = genStr(r)
 		}
@@ -236,8 +254,12 @@ func runEquals(e *vlib.Env, res *vlib.Result) {
 	for _, cp := range corpusPairs() {
 		judge(cp.kind, cp.a, cp.b)
 	}
+	sw := newSweeper(e, nMsgs/4)
 	for i := 0; i < nMsgs; i++ {
 		base := genSpec(e.R)
+		if i%4 == 0 {
+			applySweep(e.R, &base, sw.at(i/4), e.Idx/len(c16Classes)+i/4)
+		}
 		f.addSpec(base)
 		sigParts = append(sigParts, base.String())
 		for _, kind := range pairKinds {
@@ -257,6 +279,8 @@ func runEquals(e *vlib.Env, res *vlib.Result) {
 	res.Count("equals_expected_true", nTrue)
 	res.Count("equals_expected_false", nFalse)
 	res.Count("pairs_not_applicable", skipped)
+	res.Count("corpus_sweep_strings", sw.used)
+	f.report(res)
 	res.NonTrivial = res.Failed() || (nTrue > 0 && nFalse > 0 && f.unusual())
 	res.Sig = vlib.Sig("equals", sigParts)
 	if !res.Failed() {
@@ -305,8 +329,12 @@ func runCopy(e *vlib.Env, res *vlib.Result) {
 	var sigParts []any
 	edits, withMeta := 0, 0
 	var samples []any
+	sw := newSweeper(e, nMsgs/4)
 	for i := 0; i < nMsgs; i++ {
 		spec := genSpec(e.R)
+		if i%4 == 0 {
+			applySweep(e.R, &spec, sw.at(i/4), e.Idx/len(c16Classes)+i/4)
+		}
 		f.addSpec(spec)
 		sigParts = append(sigParts, spec.String())
 		if len(spec.Meta) > 0 {
@@ -400,6 +428,8 @@ func runCopy(e *vlib.Env, res *vlib.Result) {
 	res.Count("inputs", nMsgs)
 	res.Count("metadata_edits", edits)
 	res.Count("copies_with_metadata", withMeta)
+	res.Count("corpus_sweep_strings", sw.used)
+	f.report(res)
 	res.NonTrivial = res.Failed() || (edits > 0 && withMeta > 0 && f.unusual())
 	res.Sig = vlib.Sig("copy", sigParts)
 	if !res.Failed() {
